@@ -222,13 +222,15 @@ def run(pid, tier, seed, work, a, t0):
     # they cross-check the contracts together with the models the proofs trust)
     sweeps_done = []
     native_fail = []
-    if tier == 'thorough' and not a.only:
+    if not a.only:
         import replay_native
         for un in units_available():
             u = pipeline.load_unit(un)
             for sp in getattr(u, 'NATIVE_SWEEPS', []):
                 if pid not in sp.get('props', []):
                     continue
+                if tier != 'thorough' and not sp.get('quick'):
+                    continue            # the quick tier runs only the sweeps marked quick (small, and covering what no contract pins down)
                 nd = os.path.join(work, 'native_' + sp['name'])
                 os.makedirs(nd, exist_ok=True)
                 res = replay_native.sweep(sp, nd)
